@@ -268,6 +268,10 @@ func CheckFields(input PDU) error { // nolint: gocyclo
 
 	switch input.Version() {
 	case RoomVersionPseudoIDs:
+		// Pseudo IDs have no sigil or domain, but the length limits still apply.
+		if err := checkIDLength(string(input.SenderID()), "user"); err != nil {
+			return err
+		}
 	default:
 		if err := checkID(string(input.SenderID()), "user", '@'); err != nil {
 			return err
